@@ -1,6 +1,6 @@
 (* C20 -- proofs about Model/Spsc.v, part 3: close, end-of-stream, wake-ups, termination; 1..n producers *)
 From Coq Require Import ZArith List Bool Lia Znumtheory.
-From RV Require Import Model.SpscSkel Model.Spsc Gen.SpscProg Proofs.SpscProofs Proofs.SpscN.
+From RV Require Import Model.SpscSkel Model.Spsc Proofs.SpscProofs Proofs.SpscN.
 Import ListNotations.
 Open Scope Z_scope.
 Open Scope bool_scope.
@@ -113,15 +113,15 @@ Ltac fld2 :=
   try solve [intros; lia];
   try solve [intros; eauto 4];
   try solve [intros; first [left; solve [auto] | right; solve [auto]]];
-  try solve [timeout 4 (intuition (try discriminate; try congruence; try lia))];
+  try solve [intuition (try discriminate; try congruence; try lia)];
   try solve [intros; repeat match goal with H : context [negb ?b] |- _ => destruct b eqn:?; cbn [negb] in * end;
-             timeout 4 (intuition (try discriminate; try congruence; try lia))];
-  try solve [let E := fresh in intros E; rewrite E in *; cbn in *; timeout 4 (intuition (try discriminate; try congruence; try lia))];
+             intuition (try discriminate; try congruence; try lia)];
+  try solve [let E := fresh in intros E; rewrite E in *; cbn in *; intuition (try discriminate; try congruence; try lia)];
   try solve [intros; match goal with |- ?b = false => destruct b eqn:?; [exfalso|reflexivity] end;
-             timeout 4 (intuition (try discriminate; try congruence; try lia))];
+             intuition (try discriminate; try congruence; try lia)];
   try solve [match goal with |- context [c_pc ?c] => let pcx := fresh "pcx" in remember (c_pc c) as pcx; destruct pcx end;
              intros; repeat match goal with H : context [negb ?b] |- _ => destruct b eqn:?; cbn [negb] in * end;
-             timeout 4 (intuition (try discriminate; try congruence; try lia))].
+             intuition (try discriminate; try congruence; try lia)].
 
 Lemma no_waiting_true h : waiting h = true -> notify_one h = set_notify h (permit h) false true true.
 Proof. unfold notify_one. intros ->. reflexivity. Qed.
